@@ -319,15 +319,24 @@ impl FormatSpec {
         sep: char,
         disp_digit_cnt: i32,
     ) -> String {
-        // Don't add separators to the floating decimal point of numbers
-        let mut parts = magnitude_str.splitn(2, '.');
-        let magnitude_int_str = parts.next().unwrap().to_string();
-        let dec_digit_cnt = magnitude_str.len() as i32 - magnitude_int_str.len() as i32;
-        let int_digit_cnt = disp_digit_cnt - dec_digit_cnt;
-        let mut result = FormatSpec::separate_integer(magnitude_int_str, inter, sep, int_digit_cnt);
-        if let Some(part) = parts.next() {
-            result.push_str(&format!(".{part}"))
-        }
+        // Only the leading integer digits are grouped: not the fraction, not an exponent and
+        // not `inf`/`nan`. Interval 4 means a binary/octal/hex integer (all digits).
+        let int_len = if inter == 4 {
+            magnitude_str.len()
+        } else {
+            magnitude_str
+                .find(|c: char| !c.is_ascii_digit())
+                .unwrap_or(magnitude_str.len())
+        };
+        let (magnitude_int_str, rest) = magnitude_str.split_at(int_len);
+        let int_digit_cnt = disp_digit_cnt - rest.len() as i32;
+        let mut result = if magnitude_int_str.is_empty() {
+            // inf / nan: plain zero padding, nothing to separate
+            "0".repeat(cmp::max(int_digit_cnt, 0) as usize)
+        } else {
+            FormatSpec::separate_integer(magnitude_int_str.to_string(), inter, sep, int_digit_cnt)
+        };
+        result.push_str(rest);
         result
     }
 
@@ -392,9 +401,8 @@ impl FormatSpec {
     fn get_separator_interval(&self) -> usize {
         match self.format_type {
             Some(FormatType::Binary | FormatType::Octal | FormatType::Hex(_)) => 4,
-            Some(FormatType::Decimal | FormatType::Number(_) | FormatType::FixedPoint(_)) => 3,
-            None => 3,
-            _ => panic!("Separators only valid for numbers!"),
+            // every other numeric presentation type groups its decimal integer digits by three
+            _ => 3,
         }
     }
 
@@ -407,7 +415,14 @@ impl FormatSpec {
                 };
                 let inter = self.get_separator_interval().try_into().unwrap();
                 let magnitude_len = magnitude_str.len();
-                let width = self.width.unwrap_or(magnitude_len) as i32 - prefix.len() as i32;
+                // the width drives zero padding only under sign-aware zero padding (`0` flag / `0=`)
+                let zero_padded =
+                    self.fill == Some('0') && self.align == Some(FormatAlign::AfterSign);
+                let width = if zero_padded {
+                    self.width.unwrap_or(magnitude_len) as i32 - prefix.len() as i32
+                } else {
+                    0
+                };
                 let disp_digit_cnt = cmp::max(width, magnitude_len as i32);
                 FormatSpec::add_magnitude_separators_for_char(
                     magnitude_str,
